@@ -526,12 +526,12 @@ def topological_ordering(A):
 
     """
     # Check that there are no undirected edges
-    if only_undirected(A).sum() > 0:
+    if (only_undirected(A) != 0).any():
         raise ValueError("The given graph is not a DAG")
     # Run the algorithm from the 1962 paper "Topological sorting of
     # large networks" by AB Kahn
     A = A.copy()
-    sinks = list(np.where(A.sum(axis=0) == 0)[0])
+    sinks = list(np.where((A != 0).sum(axis=0) == 0)[0])
     ordering = []
     while len(sinks) > 0:
         i = sinks.pop()
@@ -541,7 +541,7 @@ def topological_ordering(A):
             if len(pa(j, A)) == 0:
                 sinks.append(j)
     # If A still contains edges there is at least one cycle
-    if A.sum() > 0:
+    if (A != 0).any():
         raise ValueError("The given graph is not a DAG")
     else:
         return ordering
